@@ -224,13 +224,53 @@ def r17_5(repo: Repo) -> RuleResult:
     return rr
 
 
-RULES = [r17_1, r17_2, r17_3, r17_4, r17_5]
+def r17_6(repo: Repo) -> RuleResult:
+    """A column without stored entries has posterior = baseline, so its divergence - its weight - is 0.  The driver
+    must therefore either call the kernel for every column or start from a buffer of zeros: a column skipped in a
+    buffer initialised to ones keeps the weight 1, depends on whether its zeros are stored, and shifts the mean the
+    other weights are normalised by."""
+    from .common import ancestors
+
+    rr = RuleResult("R17.6", "every column's weight is written by the kernel (or a skipped column keeps 0, the divergence of an empty column)", floor=1)
+    f = repo.func(IW, "column_weights")
+    rets = [n for n in walk_no_nested(f.node) if isinstance(n, ast.Return) and isinstance(n.value, ast.Name)]
+    if len(rets) != 1:
+        raise AnalysisError("R17.6: column_weights does not return its buffer by name")
+    buf = rets[0].value.id
+    inits = [n for n in walk_no_nested(f.node) if isinstance(n, ast.Assign) and any(isinstance(t, ast.Name) and t.id == buf for t in n.targets)]
+    if len(inits) != 1 or not isinstance(inits[0].value, ast.Call):
+        raise AnalysisError("R17.6: allocation of `%s` not recognised" % buf)
+    init_fn = (repo.canonical(f.module, inits[0].value.func) or norm(inits[0].value.func)).rsplit(".", 1)[-1]
+    pm = parents_map(f.node)
+    stores = [n for n in walk_no_nested(f.node) if isinstance(n, ast.Assign) and isinstance(n.targets[0], ast.Subscript) and norm(n.targets[0].value) == buf]
+    if not stores:
+        raise AnalysisError("R17.6: no store into `%s`" % buf)
+    for st in stores:
+        conds = []
+        for a in ancestors(st, pm):
+            if isinstance(a, (ast.For, ast.While)):
+                break
+            if isinstance(a, ast.If):
+                conds.append(a)
+        construct = "%s[...] = kernel(...)" % buf
+        if not conds:
+            rr.ok(f, construct, "stored for every column", st.lineno)
+        elif init_fn == "zeros":
+            rr.ok(f, construct, "conditional (`%s`), skipped columns keep 0 = the divergence of an empty column" % short(conds[0].test, 40), st.lineno)
+        else:
+            rr.bad(f, construct, "the weight is stored only under `%s` and the buffer starts as np.%s: a skipped column keeps %s instead of 0, "
+                   "the Kullback-Leibler divergence of a column whose posterior equals the baseline" % (short(conds[0].test, 40), init_fn, "1" if init_fn == "ones" else "its initial value"), st.lineno)
+    return rr
+
+
+RULES = [r17_1, r17_2, r17_3, r17_4, r17_5, r17_6]
 CLAIM = (
     "R17.1 every path of information_weight to the binary-search kernel passes sort_indices() on the very matrix whose "
     "arrays are handed over; R17.2 on every path each weight vector's last write before np.power is np.maximum(., 0.0); "
     "R17.3 transform returns X @ diags(fitted weights) and nothing else; R17.4 the searchsorted position in the exact-prior "
     "kernel is membership-guarded (or the kernel walks its stored entries by position); R17.5 in the exact-prior kernel a "
     "conditional that adds a term of the divergence on one arm only tests that term's own probability (`p > 0`): no row's "
-    "contribution is dropped for another reason (explicit zeros keep their prior mass)."
+    "contribution is dropped for another reason (explicit zeros keep their prior mass); R17.6 the column driver stores a weight for every "
+    "column, or skips columns only in a buffer of zeros."
 )
 NOT_DECIDED = "the KL identity, finiteness and permutation equivariance of the weights (numerical)."
